@@ -611,6 +611,31 @@ pub fn dataurl(b: &[u8]) -> Option<String> {
     }
 }
 
+/// C20 for the borrowed data-URL type: `DataUrl::new` and its re-scanning accessors allocate
+/// nothing and hand out sub-slices of the input (`decoded_data` is not a borrowed view)
+pub fn ptrdata(b: &[u8]) -> Option<String> {
+    use iref::uri::data::DataUrl;
+    ALLOCS.store(0, AO::Relaxed);
+    COUNTING.store(true, AO::Relaxed);
+    let got = match DataUrl::new(b) {
+        Ok(v) => {
+            let p = v.parts();
+            Some((v.as_str().as_bytes(), v.media_type().map(|x| x.as_bytes()), v.is_base_64_encoded(), v.encoded_data().as_bytes(),
+                  p.media_type.map(|x| x.as_bytes()), p.base_64, p.data.as_bytes(), v.as_uri().as_bytes()))
+        }
+        Err(_) => None,
+    };
+    COUNTING.store(false, AO::Relaxed);
+    let allocs = ALLOCS.load(AO::Relaxed);
+    match got {
+        None => Some("invalid".to_string()),
+        Some((whole, mt, _, data, pmt, _, pdata, uri)) => Some(format!(
+            "whole={} media_type={} data={} parts_media_type={} parts_data={} uri={} allocs={}",
+            loc(b, whole), oloc(b, mt), loc(b, data), oloc(b, pmt), loc(b, pdata), loc(b, uri), allocs
+        )),
+    }
+}
+
 // ---------------------------------------------------------------------------
 // percent-decoded views (C19)
 
@@ -856,6 +881,7 @@ pub fn dispatch(t: &[&str]) -> Option<String> {
         },
         "streq" => streq(t.get(1)?, &unhex(t.get(2)?)?, &unhex(t.get(3)?)?),
         "dataurl" => dataurl(&unhex(t.get(1)?)?),
+        "ptrdata" => ptrdata(&unhex(t.get(1)?)?),
         "pct" => pct(t.get(1)?, t.get(2)?, &unhex(t.get(3)?)?),
         "pctref" => match *t.get(1)? {
             "u" => pctref_u(&unhex(t.get(2)?)?),
